@@ -684,7 +684,10 @@ def gen_e2e(rng):
     lines = []
     for _ in range(rng.randint(1, 5)):
         r = rng.random()
-        if r < 0.45:
+        if r < 0.1 and len(atoms) > 2:
+            a, b = rng.sample(atoms, 2)
+            text, val = a + delim + b, ("multi", a, b)      # a value that is itself a list: its elements, in order
+        elif r < 0.45:
             text, val = rng.choice(atoms), None
             val = text
         elif r < 0.8:
@@ -703,7 +706,7 @@ def gen_e2e(rng):
         r = rng.random()
         if r < 0.2:
             continue
-        pool = atoms + ["", "${X}/kept"] + [l["value"] for l in lines if isinstance(l["val"], str)]
+        pool = atoms + ["", "${X}/kept"] + [l["value"] for l in lines if isinstance(l["val"], str) and l["op"] != "set"]
         env[v] = delim.join(rng.choice(pool) for _ in range(rng.randint(0, 5)))
     return {"kind": "e2e", "env": env, "lines": lines, "delim": delim, "dirname": rng.choice(["prd", "loc dir", "p-1.0"]),
             "route": rng.choice(["local", "declared"])}
@@ -776,14 +779,21 @@ def e2e_oracle(case, out):
         return
     d, delim = out["dir"], case["delim"]
 
-    def val(l):
+    def vals(l):
         v = l["val"]
-        return v if isinstance(v, str) else (d if v[0] == "dir" else os.path.join(d, "ups")) + v[1]
+        if not isinstance(v, str) and v[0] == "multi":
+            return list(v[1:])
+        return [v if isinstance(v, str) else (d if v[0] == "dir" else os.path.join(d, "ups")) + v[1]]
+
+    def val(l):
+        return vals(l)[0]
     if out.get("setup_dir") != d or out.get("unsetup_dir") is not None:
         yield ("product_dir_variable", None, "PRD_DIR %r after setup, %r after unsetup" % (out.get("setup_dir"), out.get("unsetup_dir")))
     for var in VARS:
         ls = [l for l in case["lines"] if l["var"] == var]
-        if any(delim in val(l) for l in ls if l["op"] != "set"):
+        if any(delim in x for l in ls if l["op"] != "set" for x in vals(l)):
+            continue
+        if any(len(vals(l)) > 1 for l in ls if l["op"] == "set"):
             continue
         old = uniq(elems(case["env"].get(var), delim))
         sets = [l for l in ls if l["op"] == "set"]
@@ -801,14 +811,14 @@ def e2e_oracle(case, out):
             continue            # envSet mixed with path commands on one variable: not specified as a whole
         l_ = list(old)
         for l in ls:
-            l_ = [x for x in l_ if x != val(l)]
-            l_ = [val(l)] + l_ if l["op"] == "prepend" else l_ + [val(l)]
+            l_ = [x for x in l_ if x not in vals(l)]
+            l_ = vals(l) + l_ if l["op"] == "prepend" else l_ + vals(l)
         if ls and elems(after, delim) != l_:
             yield ("table_setup_order", None, "%s: %r, expected %r" % (var, elems(after, delim), l_))
         if not ls and after != case["env"].get(var):
             yield ("other_variable_untouched", None, "%s changed by setup: %r" % (var, after))
-        vals = [val(l) for l in ls]
-        want = [x for x in old if x not in vals]
+        allvals = [x for l in ls for x in vals(l)]
+        want = [x for x in old if x not in allvals]
         if ls and elems(back, delim) != want:
             yield ("table_unsetup_removes_exactly", None, "%s: %r, expected %r" % (var, elems(back, delim), want))
 
